@@ -69,52 +69,63 @@ pub fn embed_info(d: &ModuleDesc, bytes: &[u8], embed: Embed) -> Option<Value> {
 /// `typesSpecifier` replaced by the `leadingComments` that carried it.
 fn to_v1(mut v: Value, text: &str) -> Value {
   let lines: Vec<&str> = text.split('\n').collect();
+  let is_comment = |l: &str| {
+    l.starts_with("//") || (l.starts_with("/*") && l.ends_with("*/") && l.len() >= 4)
+  };
+  // the comment lines first..=last as version-1 `leadingComments`
+  let comments = |first: usize, last: usize| -> Value {
+    Value::Array(
+      (first..=last)
+        .map(|n| {
+          let l = lines[n];
+          let text = if l.starts_with("//") {
+            &l[2..]
+          } else {
+            &l[2..l.len() - 2]
+          };
+          json!({
+            "text": text,
+            "range": [[n, 0], [n, l.len()]],
+          })
+        })
+        .collect(),
+    )
+  };
   if let Some(deps) = v.get_mut("dependencies").and_then(|d| d.as_array_mut()) {
     for dep in deps {
       let Some(obj) = dep.as_object_mut() else {
         continue;
       };
-      if let Some(ts) = obj.remove("typesSpecifier") {
-        // find the comment line that holds it
-        let t = ts.get("text").and_then(|t| t.as_str()).unwrap_or("");
-        let line_no = ts
-          .get("range")
+      // the version-1 analyser stored every leading comment of the
+      // statement: the contiguous comment lines above it
+      let last = if let Some(ts) = obj.remove("typesSpecifier") {
+        // the pragma is the last one
+        ts.get("range")
           .and_then(|r| r.get(0))
           .and_then(|p| p.get(0))
           .and_then(|l| l.as_u64())
-          .unwrap_or(0) as usize;
-        if let Some(line) = lines.get(line_no) {
-          if line.starts_with("//") {
-            let _ = t;
-            // the version-1 analyser stored every leading comment of the
-            // statement: the contiguous comment lines above it, the pragma
-            // being the last one
-            let mut first = line_no;
-            while first > 0
-              && (lines[first - 1].starts_with("//")
-                || (lines[first - 1].starts_with("/*")
-                  && lines[first - 1].ends_with("*/")))
-            {
-              first -= 1;
-            }
-            let comments: Vec<Value> = (first..=line_no)
-              .map(|n| {
-                let l = lines[n];
-                let text = if l.starts_with("//") {
-                  &l[2..]
-                } else {
-                  &l[2..l.len() - 2]
-                };
-                json!({
-                  "text": text,
-                  "range": [[n, 0], [n, l.len()]],
-                })
-              })
-              .collect();
-            obj.insert("leadingComments".into(), Value::Array(comments));
-          }
-        }
+          .map(|l| l as usize)
+      } else if obj.get("type").and_then(|t| t.as_str()) != Some("dynamic") {
+        // statements are rendered on one line: the comments end on the line
+        // above the specifier's
+        obj
+          .get("specifierRange")
+          .and_then(|r| r.get(0))
+          .and_then(|p| p.get(0))
+          .and_then(|l| l.as_u64())
+          .and_then(|l| (l as usize).checked_sub(1))
+      } else {
+        None
+      };
+      let Some(last) = last else { continue };
+      if last >= lines.len() || !is_comment(lines[last]) {
+        continue;
       }
+      let mut first = last;
+      while first > 0 && is_comment(lines[first - 1]) {
+        first -= 1;
+      }
+      obj.insert("leadingComments".into(), comments(first, last));
     }
   }
   v
@@ -233,6 +244,19 @@ pub fn gen_registry_world(tape: &mut Tape, cfg: &RegGenCfg) -> World {
         it.attr = Some("json".into());
         modd.items.push(it);
         files.insert("/data.json".to_string(), ModuleDesc::new("", Lang::Json));
+      }
+      if tape.draw(Stream::World, 6) == 5 {
+        // a sibling script imported as an asset (text): never a module of
+        // the graph, whatever the manifest says about its dependencies
+        let mut it = Item::new(Form::Default, "./template.ts");
+        it.attr = Some("text".into());
+        modd.items.push(it);
+        let mut t = ModuleDesc::new("", Lang::Ts);
+        if has_util {
+          t.items.push(Item::new(Form::SideEffect, "./util.ts"));
+        }
+        t.items.push(Item::new(Form::SideEffect, "./gone_below_template.ts"));
+        files.insert("/template.ts".to_string(), t);
       }
       // richer files: the remaining fields of the module information
       if tape.draw(Stream::World, 2) == 1 {
